@@ -1,4 +1,5 @@
 import Acra.Lemmas.MPEGTS
+import Acra.Lemmas.ReviewC06
 import Acra.Spec.MPEG
 namespace Acra.Props.C06
 open Acra.Py Acra.Model.MPEGTS Acra.Gen.MPEGTS Acra.Lemmas.MPEGTS
@@ -463,5 +464,119 @@ example : Pkt_WF examplePktSplice ∧ Fits188 examplePktSplice ∧ examplePktSpl
   subst ha
   refine ⟨by decide, by decide, by decide, by decide, ?_, by decide, by decide, by decide, by decide, by decide, by decide⟩
   intro x hx; simp [AF.fresh] at hx
+
+/-! ### review additions: the length law without well-formedness, joint witnesses, excluded inputs -/
+
+/-- **AF length law, total form**: whenever `MPEGAdaption.pack` succeeds — NO well-formedness assumed: flags left set
+    without their part (E8), an OPCR of any size (only the PCR size is checked), any `length` — the first byte emitted
+    is the number of bytes that follow it -/
+theorem AF_length_law_total (a : AF) (b : Bytes) (h : (AF.pack a).2 = .ok b) :
+    ∃ body, b = UInt8.ofNat body.length :: body ∧ body.length < 256 :=
+  Acra.Lemmas.ReviewC06.AF_pack_length_total a b h
+
+/-- **TS.af_length, total form**: whenever `MPEGPacket.pack` succeeds on a packet with adaptation control 2 or 3 —
+    any header field values, any adaptation-field object (or None), over-full or not, with or without stuffing —
+    byte 4 is the number of adaptation bytes that follow it and the payload starts at offset 5 + that number.
+    (`TS_af_length` is the special case `Pkt_WF p`, `nostuff = False`.) -/
+theorem TS_af_length_total (p : Pkt) (ns : Bool) (b : Bytes) (hb : (Pkt.pack p ns).2 = .ok b) (haf : hasAF p) :
+    ∃ hdr body tail, hdr.length = 4 ∧ body.length < 256 ∧
+      b = hdr ++ (UInt8.ofNat body.length :: body) ++ (p.payload ++ tail) :=
+  Acra.Lemmas.ReviewC06.Pkt_pack_af_length_total p ns b hb haf
+
+/-- witness for the total forms on an object OUTSIDE `AF_WF` / `Pkt_WF`: PCR flag set without PCR, a 3-byte OPCR,
+    a 14-bit PID; `pack` succeeds and byte 4 (= 9) counts flags + 3 OPCR bytes + 5 stuffing bytes -/
+def staleAF : AF := { AF.fresh with pcr_flag := true, opcr := [1, 2, 3], length := 9 }
+
+example : ¬ AF_WF staleAF ∧
+    (AF.pack staleAF).2.toOption = some [9, 24, 1, 2, 3, 255, 255, 255, 255, 255] ∧
+    hasAF { Pkt.fresh with adaption_ctrl := 3, pid := 0x2000, payload := [5, 6], adaption_field := some staleAF } ∧
+    (Pkt.pack { Pkt.fresh with adaption_ctrl := 3, pid := 0x2000, payload := [5, 6], adaption_field := some staleAF } true).2.toOption
+      = some [71, 96, 0, 48, 9, 24, 1, 2, 3, 255, 255, 255, 255, 255, 5, 6] := by decide +kernel
+
+def extOf (ltw pw ss : Bool) : Ext :=
+  { Ext.fresh with
+    ltw := if ltw then [1, 2] else [],
+    piecewise := if pw then [3, 4, 5] else [],
+    seamless_splice := if ss then [6, 7, 8, 9, 10] else [] }
+
+/-- an adaptation field with the chosen subset of optional parts -/
+def afOf (pcr opcr spl prv ext ltw pw ss : Bool) (len : Nat) : AF :=
+  { AF.fresh with
+    length := len,
+    pcr := if pcr then [1, 2, 3, 4, 5, 6] else [],
+    opcr := if opcr then [7, 8, 9, 10, 11, 12] else [],
+    splice_countdown := if spl then 200 else 0,
+    private_data := if prv then [0xAA, 0xBB, 0xCC] else [],
+    adaption_extension := if ext then some (extOf ltw pw ss) else none }
+
+def pktOf (afc : Nat) (pcr opcr spl prv ext ltw pw ss : Bool) (len : Nat) (pl : Bytes) : Pkt :=
+  { Pkt.fresh with
+    pid := 0x1FFF, adaption_ctrl := afc, continuitycounter := 9, payload := pl,
+    adaption_field := some (afOf pcr opcr spl prv ext ltw pw ss len) }
+
+/-- **every subset of the optional parts** (PCR, OPCR, splice countdown, private data, extension × {LTW, piecewise,
+    seamless}: 256 combinations) satisfies the hypotheses of `Ext_*`, `AF_pack_layout`, `AF_length_law`, `AF_roundtrip`,
+    `TS_pack_188`, `TS_af_length`, `TS_roundtrip`, `TS_reencode_ok` TOGETHER — without stuffing, with stuffing next to a
+    payload (control 3) and as an adaptation-only packet filled exactly by stuffing (control 2) -/
+example : ∀ pcr opcr spl prv ext ltw pw ss : Bool,
+    Ext_WF (extOf ltw pw ss) ∧
+    AF_WF (afOf pcr opcr spl prv ext ltw pw ss 0) ∧ AF_WF (afOf pcr opcr spl prv ext ltw pw ss 60) ∧
+    Pkt_WF (pktOf 3 pcr opcr spl prv ext ltw pw ss 0 [1, 2, 3]) ∧ hasAF (pktOf 3 pcr opcr spl prv ext ltw pw ss 0 [1, 2, 3]) ∧
+    Fits188 (pktOf 3 pcr opcr spl prv ext ltw pw ss 0 [1, 2, 3]) ∧ (pktOf 3 pcr opcr spl prv ext ltw pw ss 0 [1, 2, 3]).sync = 0x47 ∧
+    Pkt_WF (pktOf 3 pcr opcr spl prv ext ltw pw ss 60 [1, 2, 3]) ∧ Fits188 (pktOf 3 pcr opcr spl prv ext ltw pw ss 60 [1, 2, 3]) ∧
+    Pkt_WF (pktOf 2 pcr opcr spl prv ext ltw pw ss 183 []) ∧ hasAF (pktOf 2 pcr opcr spl prv ext ltw pw ss 183 []) ∧
+    ((pktOf 2 pcr opcr spl prv ext ltw pw ss 183 []).adaption_ctrl = 2 →
+      (pktOf 2 pcr opcr spl prv ext ltw pw ss 183 []).adaption_field.isSome = true) ∧
+    Pkt_used (pktOf 2 pcr opcr spl prv ext ltw pw ss 183 []) = 188 := by
+  decide +kernel
+
+/-- joint witness for `TS_af_length` (and for `TS_header_layout`, `TS_pack_nostuff`): `examplePkt`; its byte 4 is 100 -/
+example : Pkt_WF examplePkt ∧ hasAF examplePkt ∧
+    ((Pkt.pack examplePkt).2.toOption.map fun b => (b.take 5, slice b 105 108)) = some ([0x47, 0x41, 0x04, 0x3F, 100], [1, 2, 3]) := by
+  decide +kernel
+
+/-- joint witness for `TS_pack_overlong` -/
+example : Pkt_WF { Pkt.fresh with adaption_ctrl := 1, payload := List.replicate 185 0 } ∧
+    ¬ Fits188 { Pkt.fresh with adaption_ctrl := 1, payload := List.replicate 185 0 } := by decide +kernel
+
+/-- witnesses for the error-branch theorems `Ext_pack_rejects` and `AF_pack_rejects_pcr` -/
+example : ¬ Ext_WF { Ext.fresh with ltw := [1] } := by decide
+example : 0 < ({ AF.fresh with pcr := [1, 2] } : AF).pcr.length ∧ ({ AF.fresh with pcr := [1, 2] } : AF).pcr.length ≠ 6 := by
+  decide
+
+/-- the precondition `h2af` of `TS_roundtrip` is needed (E2): adaptation control 2 with `adaption_field = None` is well
+    formed and fits, `pack` emits a lone 0 byte and 183 bytes of 0xFF, and the decoder reads those as an adaptation
+    field of length 0 with every flag set — PCR FF…, countdown 255, 168 bytes of private data; re-encoding that gives a
+    190-byte packet -/
+example :
+    let p : Pkt := { Pkt.fresh with adaption_ctrl := 2 }
+    Pkt_WF p ∧ Fits188 p ∧ p.sync = 0x47 ∧ ¬ (p.adaption_ctrl = 2 → p.adaption_field.isSome = true) ∧
+    ((Pkt.unpack Pkt.fresh (Pkt_bytes p)).1.adaption_field.map fun a => (a.length, a.pcr.length, a.splice_countdown,
+        a.private_data.length)) = some (0, 6, 255, 168) ∧
+    ((Pkt.pack (Pkt.unpack Pkt.fresh (Pkt_bytes p)).1).2.toOption.map List.length) = some 190 := by
+  decide +kernel
+
+/-- joint witness for `MPEGTS_unpack_n` with N = 2: two different 188-byte chunks, each accepted -/
+example : (∀ c ∈ [Pkt_bytes examplePkt, Pkt_bytes examplePktSplice], c.length = 188) ∧
+    (∀ c ∈ [Pkt_bytes examplePkt, Pkt_bytes examplePktSplice], (Pkt.unpack Pkt.fresh c).2 = .ok ()) := by
+  refine ⟨?_, ?_⟩ <;> intro c hc <;> simp only [List.mem_cons, List.not_mem_nil, or_false] at hc <;>
+    rcases hc with rfl | rfl
+  · decide +kernel
+  · decide +kernel
+  · rw [Pkt_unpack_bytes _ _ (by decide) (by decide) (by decide)]
+  · rw [Pkt_unpack_bytes _ _ (by decide) (by decide) (by decide)]
+
+/-- joint witness for `MPEGTS_roundtrip` / `MPEGTS_roundtrip_n` with N = 3 (adaptation + payload twice, payload only) -/
+example : ∀ p ∈ [examplePkt, examplePktSplice, { Pkt.fresh with adaption_ctrl := 1, payload := [9, 8, 7] }],
+    Pkt_WF p ∧ p.sync = 0x47 ∧ Fits188 p ∧ (p.adaption_ctrl = 2 → p.adaption_field.isSome = true) := by
+  decide +kernel
+
+/-- joint witness for `TS_reencode_ok`, including `hb` and `hq` -/
+example : Pkt_WF examplePktSplice ∧ examplePktSplice.sync = 0x47 ∧ Fits188 examplePktSplice ∧
+    (examplePktSplice.adaption_ctrl = 2 → examplePktSplice.adaption_field.isSome = true) ∧
+    (Pkt.pack examplePktSplice).2 = .ok (Pkt_bytes examplePktSplice) ∧
+    Pkt.unpack Pkt.fresh (Pkt_bytes examplePktSplice) = (Pkt_decoded examplePktSplice, .ok ()) :=
+  ⟨by decide, by decide, by decide, by decide, by rw [Pkt_pack_eq' _ false (by decide)]; rfl,
+   Pkt_unpack_bytes _ _ (by decide) (by decide) (by decide)⟩
 
 end Acra.Props.C06
